@@ -216,11 +216,13 @@ func Describe(root *ggql.Root, o DescribeOpts) string {
 		var lines []string
 		switch tt := t.(type) {
 		case *ggql.Schema:
-			head = fmt.Sprintf("schema dirs=[%s]", describeUses(root, t.Directives(), o))
-			for _, f := range tt.Fields() {
-				lines = append(lines, fmt.Sprintf("    root %s: %s", f.Name(), typeString(f.Type)))
+			// the operation roots are described below for explicit and implied schema blocks alike; whether
+			// the block is written out is not schema content, the directive uses on it are
+			if len(t.Directives()) == 0 {
+				continue
 			}
-			sort.Strings(lines)
+			head = fmt.Sprintf("schema dirs=[%s]", describeUses(root, t.Directives(), o))
+			_ = tt
 		case *ggql.Object:
 			var ins []string
 			for _, i := range tt.Interfaces {
@@ -276,6 +278,22 @@ func Describe(root *ggql.Root, o DescribeOpts) string {
 		lines := describeArgs(root, args, o)
 		blocks = append(blocks, fmt.Sprintf("directive %s desc=%q on %s\n%s", name, d.Description(), strings.Join(locs, "|"), strings.Join(lines, "\n")))
 	}
+	// the operation roots, whether the schema block is explicit or implied (an implied one is not in Types())
+	roots := "roots"
+	res := root.ResolveString("{__schema{queryType{name}mutationType{name}subscriptionType{name}}}", "", nil)
+	data, _ := res["data"].(map[string]interface{})
+	sch, _ := data["__schema"].(map[string]interface{})
+	for _, op := range []string{"queryType", "mutationType", "subscriptionType"} {
+		name := "-"
+		if m, _ := sch[op].(map[string]interface{}); m != nil {
+			name = fmt.Sprint(m["name"])
+		}
+		roots += " " + op + "=" + name
+	}
+	if res["errors"] != nil {
+		roots += fmt.Sprintf(" errors=%v", res["errors"])
+	}
+	blocks = append(blocks, roots)
 	sort.Strings(blocks)
 	return strings.Join(blocks, "\n")
 }
